@@ -154,6 +154,14 @@ pub fn profile(prop: Prop, thorough: bool) -> Profile {
             p.sets = 1;
             p.forget = true;
         }
+        Prop::C10 => {
+            p.weights = cat(&[MAP_BASIC, &scale(HANDLES, 1, 2), &[(G::Retain, 4), (G::DrainFilter, 2), (G::Reserve, 6), (G::TryReserve, 3), (G::ShrinkTo, 6), (G::ShrinkToFit, 4)]]);
+            p.maps = 1;
+            p.max_len = 40;
+            p.max_universe = 1024;
+            p.long_runs = false;
+            p.elem = [6, 3, 1];
+        }
         Prop::C11 => {
             p.weights = cat(&[MAP_BASIC, &scale(HANDLES, 1, 2), MOVERS, &[(G::CloneTo, 12), (G::CloneFrom, 14), (G::EqCheck, 8)]]);
             p.maps = 3;
